@@ -10,7 +10,7 @@ PROP = dict(
         "Shangrla.Raire.init_inv", "Shangrla.Raire.post_spec", "Shangrla.Raire.compute_spec",
         # the property
         "Shangrla.C04.raire_true", "Shangrla.C04.raire_sufficient", "Shangrla.C04.raire_empty_iff",
-        "Shangrla.C04.raire_empty_witness", "Shangrla.C04.wrong_winner_empty",
+        "Shangrla.C04.raire_empty_witness", "Shangrla.C04.wrong_winner_empty", "Shangrla.C04.raire_no_exception",
     ],
     groups={"raire": (3000, 40000)},
     design_ref="DESIGN.md section 5, C04; Appendix F",
